@@ -169,7 +169,7 @@ class Tifa(TifaCore, ast.NodeVisitor):
             # For now, only reports if we are NOT in a function
             was_empty = True
             if len(self.scope_chain) == 1:
-                self._issue(iterating_over_empty_list(self.locate(iter_list), iter_list_name))
+                self._issue(iterating_over_empty_list(self.locate(iter_list), iter_list_name, report=self.report))
 
         iter_subtype = iter_type.iterate()
         if isinstance(iter_subtype, ImpossibleType):
@@ -181,7 +181,7 @@ class Tifa(TifaCore, ast.NodeVisitor):
 
         # Check that the iteration list and variable are distinct
         if isinstance(node.target, ast.Name) and node.target.id == iter_list_name:
-            self._issue(iteration_problem(self.locate(node.target), node.target.id))
+            self._issue(iteration_problem(self.locate(node.target), node.target.id, report=self.report))
 
         return was_empty
 
@@ -632,7 +632,7 @@ class Tifa(TifaCore, ast.NodeVisitor):
                 call_type = 'method'
             name = self.identify_caller(node.value)
             self._issue(unused_returned_value(self.locate(), name,
-                                              call_type, value))
+                                              call_type, value, report=self.report))
 
     def visit_For(self, node):
         """
@@ -675,7 +675,7 @@ class Tifa(TifaCore, ast.NodeVisitor):
                 break
             steps += 1
         if steps > 1:
-            self._issue(nested_function_definition(self.locate(), function_name))
+            self._issue(nested_function_definition(self.locate(), function_name, report=self.report))
 
         return self.apply_decorators(function_name, function, node.decorator_list)
 
@@ -712,13 +712,13 @@ class Tifa(TifaCore, ast.NodeVisitor):
                             specify_subtype(annotation, argument)
                         else:
                             self._issue(parameter_type_mismatch(self.locate(), parameter_name,
-                                                                annotation, argument))
+                                                                annotation, argument, report=self.report))
                     elif default is not SkipType:
                         if is_subtype(argument, default):
                             specify_subtype(default, argument)
                         else:
                             self._issue(parameter_type_mismatch(self.locate(), parameter_name,
-                                                                default, argument))
+                                                                default, argument, report=self.report))
                     if argument is not None:
                         argument_type = argument.clone_mutably()
                         self.create_variable(parameter_name, argument_type, position)
@@ -812,10 +812,10 @@ class Tifa(TifaCore, ast.NodeVisitor):
         self.visit(node.test)
 
         if len(node.orelse) == 1 and isinstance(node.orelse[0], ast.Pass):
-            self._issue(unnecessary_second_branch(self.locate()))
+            self._issue(unnecessary_second_branch(self.locate(), report=self.report))
         elif len(node.body) == 1 and isinstance(node.body[0], ast.Pass):
             if node.orelse:
-                self._issue(unnecessary_second_branch(self.locate()))
+                self._issue(unnecessary_second_branch(self.locate(), report=self.report))
 
         # Visit the bodies
         this_path_id = self.path_chain[0]
@@ -985,7 +985,7 @@ class Tifa(TifaCore, ast.NodeVisitor):
         """
         name = node.id
         if name == "___":
-            self._issue(unconnected_blocks(self.locate()))
+            self._issue(unconnected_blocks(self.locate(), report=self.report))
         if isinstance(node.ctx, ast.Load):
             if name == "True" or name == "False":
                 return LiteralBool(name == "True")
@@ -1120,7 +1120,7 @@ class Tifa(TifaCore, ast.NodeVisitor):
         slice_type = self.visit(node.slice)
         result = value_type.index(slice_type)
         if isinstance(result, ImpossibleType):
-            self._issue(invalid_indexing(self.locate(), value_type, slice_type))
+            self._issue(invalid_indexing(self.locate(), value_type, slice_type, report=self.report))
         if isinstance(node.slice, ast.Slice):
             return value_type.shallow_clone()
         else:
@@ -1195,7 +1195,7 @@ class Tifa(TifaCore, ast.NodeVisitor):
             self.visit(node.test)
         # If there's else bodies (WEIRD) then we should check them afterwards
         if node.orelse:
-            self._issue(else_on_loop_body(self.locate()))
+            self._issue(else_on_loop_body(self.locate(), report=self.report))
             for statement in node.orelse:
                 self.visit(statement)
 
